@@ -24,6 +24,9 @@ SCENARIOS = [
     {"name": "other-start-and-prefix",
      "spec": '<start> ::= <a> | <b> | <c>{1,3}\n<a> ::= "x" | "x" "y"\n<b> ::= <d> <d>?\n<d> ::= "x" | "y"\n<c> ::= "x" | "y" | "xy"\n',
      "keys": {"amb": ("x", "<start>", True), "one": ("x", "<d>", False)}},
+    {"name": "same-word-two-modes",
+     "spec": '<start> ::= <item>+ ";"\n<item> ::= "a" | "b" | "ab"\n',
+     "keys": {"amb": ("ab", "<start>", True), "one": ("ab", "<start>", False)}},
     {"name": "bytes",
      "spec": '<start> ::= <p> <q>\n<p> ::= b"\\x01" | b"\\x01" b"\\x02" | <r>\n<r> ::= b"\\x01"\n<q> ::= b"\\x02"? b"\\x03"\n',
      "keys": {"amb": (b"\x01\x03", "<start>", False), "one": (b"\x01\x02\x03", "<start>", False)}},
